@@ -299,6 +299,93 @@ def run(chk):
                    key="deabstract|%s" % fn.name)
     chk.floor(R5 + ":size_of-sites", nde, 2)
 
+    # ---------------------------------------------------------------- C08.f the section chain rebuilt by update_section_links ends with null
+    R6 = "R-CHAIN-TERMINATED"
+    chk.rule(R6, "update_section_links: once a section node became the current (last seen) one, every path to the function's exit assigns "
+                 "nullptr to the `_next_section` of the current section after the walk (path states carry whether the current section is known "
+                 "to be non-null, so the `if (current_section)` guard is respected): the last section never keeps a stale successor")
+    usl = fns.get("BaseBuilder::update_section_links")
+    chk.need(usl is not None, "BaseBuilder::update_section_links not found")
+    from lib.must import branch_atoms as _ba
+    atoms_u = _ba(usl)
+    cs_dids = set()
+    for x in usl.ex.values():
+        if x["k"] == "decl":
+            for v in x["vars"]:
+                if "SectionNode" in v.get("ty", "") and "*" in v.get("ty", ""):
+                    cs_dids.add(v["did"])
+    chk.need(len(cs_dids) >= 1, "update_section_links: no SectionNode* local found")
+
+    def step(el, st):
+        x = usl.e(el)
+        if not x:
+            return st
+        out = set()
+        for (nonnull, pending) in st:
+            if x["k"] == "binop" and x["op"] == "=":
+                l = usl.e(usl.strip(x["lhs"]))
+                r = usl.e(usl.strip(x["rhs"]))
+                if l and l["k"] == "ref" and l.get("did") in cs_dids:
+                    isnull = r is not None and (r["k"] == "null" or r.get("cv") == 0)
+                    out.add((not isnull, pending or not isnull))
+                    continue
+                p = usl.access_path(x["lhs"]) or ""
+                if p.endswith("._next_section") and r is not None and (r["k"] == "null" or r.get("cv") == 0):
+                    b0 = usl.e(usl.root_ref(x["lhs"])) if usl.root_ref(x["lhs"]) else None
+                    if b0 and b0.get("did") in cs_dids:
+                        out.add((nonnull, False))
+                        continue
+            out.add((nonnull, pending))
+        return frozenset(out)
+
+    def transfer(b, st):
+        for el in usl.blocks[b]["elems"]:
+            if isinstance(el, int):
+                st = step(el, st)
+        return st
+
+    def edge(b, si, succ, st):
+        if b not in atoms_u:
+            return st
+        atom, pol = atoms_u[b]
+        holds = (si == 0) == pol
+        ax = usl.e(atom)
+        if ax and ax["k"] == "ref" and ax.get("did") in cs_dids:
+            if holds:
+                return frozenset((True, p_) for (nn, p_) in st)
+            return frozenset((nn, p_) for (nn, p_) in st if not nn)        # a section known to be non-null cannot take the false edge
+        return st
+    INu, OUTu = cfg.forward(usl, frozenset({(False, False)}), transfer, lambda ss: frozenset().union(*ss), edge=edge)
+    at_exit = INu.get(usl.exit, frozenset())
+    chk.ob(R6, "BaseBuilder::update_section_links", bool(at_exit) and not any(p_ for (_, p_) in at_exit), loc="%s:%d" % (UNIT, usl.line),
+           detail="a path reaches the exit with a current section whose `_next_section` was not reset to nullptr: after a node-list edit the "
+                  "last section keeps pointing at a section that is no longer behind it", key="chainterminated|update_section_links")
+
+    # ---------------------------------------------------------------- C08.g every finalize() configures its Assembler the same way
+    R7 = "R-FINALIZE-SIBLINGS"
+    chk.rule(R7, "x86/a64 Builder::finalize and Compiler::finalize hand the same emitter settings to the Assembler they serialise to (the set of "
+                 "add_* / set_* calls on the local Assembler is identical in all four): a Builder and a Compiler configured alike produce the "
+                 "same bytes as an Assembler configured that way")
+    fin = {}
+    for unit, cls in (("asmjit/x86/x86builder.cpp", "x86::Builder"), ("asmjit/x86/x86compiler.cpp", "x86::Compiler"),
+                      ("asmjit/arm/a64builder.cpp", "a64::Builder"), ("asmjit/arm/a64compiler.cpp", "a64::Compiler")):
+        ff = chk.facts(unit, funcs=r"asmjit::%s::finalize$" % cls)
+        fn = cfg.find_fn(ff, cls + "::finalize")
+        local_asm = {v["did"] for x in fn.ex.values() if x["k"] == "decl" for v in x["vars"] if "Assembler" in v.get("ty", "")}
+        calls = set()
+        for i, x in fn.calls(lambda x: x["k"] == "mcall" and x.get("obj")):
+            o = fn.e(fn.strip(x["obj"]))
+            if o and o["k"] == "ref" and o.get("did") in local_asm and re.match(r"^(add|set)_", x.get("cn") or ""):
+                calls.add("%s(%s)" % (x["cn"], re.sub(r"\s+|this->", "", fn.text(x["args"][0])) if x.get("args") else ""))
+        fin[cls] = (calls, fn)
+    ref_set = set()
+    for c, (calls, fn) in fin.items():
+        ref_set |= calls
+    for c, (calls, fn) in sorted(fin.items()):
+        chk.ob(R7, c + "::finalize", calls == ref_set and len(ref_set) >= 1, loc="%s:%d" % (fn.file.replace("/repo/", ""), fn.line),
+               detail="%s::finalize configures its Assembler with %s; its siblings also call %s" % (c, sorted(calls), sorted(ref_set - calls)),
+               key="finalizesiblings|%s" % c)
+
     return chk.finish(
         level="other",
         explanation=("Capture/replay coverage rules over BaseBuilder in /repo's current source: each node-creating override is replayed by "
